@@ -37,7 +37,7 @@ end
 /-- further scopes the leaf expression enters, nested (harness/cmd/c18 depthLeaves, same order) -/
 def leafExtra (leaf : String) : Option Nat :=
   match leaf.toNat? with
-  | some n => [0, 1, 2, 2, 2, 1, 0, 0, 1, 1, 0, 2, 1, 2, 2, 1, 1, 1, 1, 1, 2, 1, 2, 0, 1, 0, 1, 0][n]?
+  | some n => [0, 1, 2, 2, 2, 1, 0, 0, 1, 1, 1, 2, 1, 2, 2, 1, 1, 1, 1, 1, 2, 1, 2, 0, 1, 0, 1, 0][n]?
   | none => none
 
 def handle (ws : List String) : String :=
